@@ -1055,13 +1055,14 @@ def pattern_cases(rng=None, sample: int = 0):
     every initial store of the three keys (so a matching key is only pending, only in the store, both, pending-deleted
     or nowhere), followed or not by a second `delete_match` with the SAME or a DIFFERENT pattern (patterns selecting all
     keys, two, one, none), then reads of everything from inside, the end of the block and a read from outside.
-    Without `rng`: the whole space x 3 modes, ended by commit (and every 7th also by an exception).  With `rng`: `sample`
-    points of the space drawn from it, one mode each."""
+    Without `rng`: the whole space, every point in fast mode (the plain backend's `delete_match`) and in one of the two
+    lock modes (the lock backend's; locked / serializable alternating), ended by commit (and every 7th also by an
+    exception).  With `rng`: `sample` points of the space drawn from it, one of the three modes each."""
     space = list(pattern_space())
     if rng is None:
         for i, pt in enumerate(space):
-            for mode in MODES:
-                yield _pattern_case(*pt, mode, "ok")
+            yield _pattern_case(*pt, "fast", "ok")
+            yield _pattern_case(*pt, MODES[1 + i % 2], "ok")
             if i % 7 == 0:
                 yield _pattern_case(*pt, MODES[i % 3], "exc")
         return
